@@ -46,31 +46,78 @@ def fn_name(site):
     return site.split('[')[0].split('.', 1)[1]
 
 
+def lay_phi(a, layout):
+    """The same logical array in another memory layout (the recorded input is the logical array)."""
+    if layout == 'F':
+        return np.asfortranarray(a)
+    if layout == 'sliced':            # every second element of a larger array along every axis
+        big = np.full([2 * n for n in a.shape], 7.25)
+        sl = tuple(slice(None, None, 2) for _ in a.shape)
+        big[sl] = a
+        return big[sl]
+    return a
+
+
+def lay_grid(g, layout):
+    if layout in ('F', 'sliced'):     # a strided view
+        big = np.full(2 * len(g), 0.5)
+        big[::2] = g
+        return big[::2]
+    return g
+
+
+def conv_fs(inp):
+    """Proportions as the recorded argument type: Python floats (default), Python ints, numpy scalars."""
+    fs = [float(Fraction(f)) for f in inp['fs']]
+    t = inp.get('ftype')
+    if t == 'int':
+        assert all(f == int(f) for f in fs)
+        return [int(f) for f in fs]
+    if t == 'np':
+        return [np.float64(f) for f in fs]
+    return fs
+
+
+def conv_seq(q, t):
+    return tuple(q) if t == 'tuple' else np.array(q) if t == 'array' else list(q)
+
+
 def execute(op, site, inp):
     """Call the real dadi function named by `site` on the decoded inputs; return the 'out' part of a record."""
     from dadi import PhiManip, Numerics
     name = fn_name(site)
+    layout = inp.get('layout')
+    kw = {'deme_ids': list(inp['deme_ids'])} if 'deme_ids' in inp else {}
     try:
+        phi = lay_phi(dec_phi(inp['phi']), layout)
         if op == 'split1d':
-            res = PhiManip.phi_1D_to_2D(dec_grid(inp['g']), dec_phi(inp['phi']))
+            res = PhiManip.phi_1D_to_2D(lay_grid(dec_grid(inp['g']), layout), phi, **kw)
         elif op == 'split':
-            res = getattr(PhiManip, name)(dec_grid(inp['g']), dec_phi(inp['phi']))
+            res = getattr(PhiManip, name)(lay_grid(dec_grid(inp['g']), layout), phi, **kw)
         elif op == 'admix_new':
-            fs = [float(Fraction(f)) for f in inp['fs']]
-            gs = dec_grids(inp['gs'] + [inp['gnew']])
-            res = getattr(PhiManip, name)(dec_phi(inp['phi']), *fs, *gs)
+            gs = [lay_grid(g, layout) for g in dec_grids(inp['gs'] + [inp['gnew']])]
+            res = getattr(PhiManip, name)(phi, *conv_fs(inp), *gs, **kw)
         elif op == 'pulse':
-            fs = [float(Fraction(f)) for f in inp['fs']]
-            res = getattr(PhiManip, name)(dec_phi(inp['phi']), *fs, *dec_grids(inp['gs']))
+            res = getattr(PhiManip, name)(phi, *conv_fs(inp), *[lay_grid(g, layout) for g in dec_grids(inp['gs'])])
         elif op == 'remove':
+            g = lay_grid(dec_grid(inp['g']), layout)
             if site.startswith('Numerics.'):
-                res = Numerics.trapz(dec_phi(inp['phi']), dec_grid(inp['g']), axis=inp['a'] - 1)
+                call = inp.get('call')
+                if call == 'neg_axis':
+                    res = Numerics.trapz(phi, g, axis=inp['a'] - 1 - phi.ndim)
+                elif call == 'default_axis':
+                    assert inp['a'] == phi.ndim
+                    res = Numerics.trapz(phi, g)
+                elif call == 'dx':
+                    res = Numerics.trapz(phi, dx=np.diff(g), axis=inp['a'] - 1)
+                else:
+                    res = Numerics.trapz(phi, g, axis=inp['a'] - 1)
             else:
-                res = PhiManip.remove_pop(dec_phi(inp['phi']), dec_grid(inp['g']), inp['a'])
+                res = PhiManip.remove_pop(phi, g, inp['a'])
         elif op == 'filter':
-            res = PhiManip.filter_pops(dec_phi(inp['phi']), dec_grid(inp['g']), list(inp['keep']))
+            res = PhiManip.filter_pops(phi, lay_grid(dec_grid(inp['g']), layout), conv_seq(inp['keep'], inp.get('seqtype')))
         elif op == 'reorder':
-            res = PhiManip.reorder_pops(dec_phi(inp['phi']), list(inp['perm']))
+            res = PhiManip.reorder_pops(phi, conv_seq(inp['perm'], inp.get('seqtype')))
         else:
             raise common.MachineryError('unknown op %r' % op)
     except common.MachineryError:
@@ -232,7 +279,7 @@ def _stresses_complement(vals):
 
 
 VALID_KINDS = ['zero', 'vertex', 'face', 'subface', 'aligned', 'interior', 'roundoff', 'face', 'aligned']
-SIZES_QUICK = {1: (5, 20), 2: (7, 12), 3: (5, 7), 4: (3, 5), 5: (3, 4)}
+SIZES_QUICK = {1: (5, 20), 2: (7, 10), 3: (4, 6), 4: (3, 4), 5: (3, 3)}
 SIZES_THOROUGH = {1: (5, 40), 2: (7, 16), 3: (5, 8), 4: (4, 6), 5: (3, 4)}
 SIZES = dict(SIZES_QUICK)
 
@@ -260,12 +307,17 @@ def records(ctx):
     nid = itertools.count()
 
     def add(op, site, inp):
+        inp = {k: v for k, v in inp.items() if v is not None}      # JSON null is not a TLA+ value
         recs.append({'id': '%s-%d' % (op, next(nid)), 'op': op, 'site': site, 'in': inp, 'out': execute(op, site, inp)})
     rep = 1 if ctx.quick else 4
+    kind_no = itertools.count()
+
+    def next_kind():                  # every function sees all four grid families
+        return GRID_KINDS[next(kind_no) % len(GRID_KINDS)]
 
     def prop_cases(m, mode):
-        if mode == 'same' and ctx.quick and m >= 3:     # the expensive 4-D / 5-D arrays: one case per class
-            kinds = ['zero', 'face', 'aligned', 'interior', 'roundoff', 'roundoff', rng.choice(['vertex', 'subface']), 'above', 'barely_above']
+        if mode == 'same' and ctx.quick:     # one sampled case per class (0, 1 and single sources are in the fixed set)
+            kinds = ['face', 'aligned', 'interior', 'subface'] + (['roundoff', 'roundoff'] if m >= 3 else ['interior']) + ['above', 'barely_above']
         elif mode == 'same':
             kinds = list(VALID_KINDS) * rep + (['roundoff'] * rep if m >= 3 else []) + ['above', 'barely_above'] * (1 if ctx.quick else 2)
         elif ctx.quick:
@@ -273,13 +325,16 @@ def records(ctx):
         else:
             kinds = ['interior', 'face', 'aligned'] * 2
         return kinds
+    fixed_records(add, random.Random(ctx.seed + 606), ctors, pulses, ctx.quick)
     # ---- pulses
     for pf in pulses:
         P = pf['P']
         for mode in ('same', 'same_length', 'mixed'):
             for kind in prop_cases(P - 1, mode):
-                gk = rng.choice(['dyadic', 'uniform']) if kind == 'aligned' else None
+                gk = ('dyadic', 'uniform')[next(kind_no) % 2] if kind == 'aligned' else next_kind()
                 gs = grids_for(rng, P, mode, kind=gk)
+                if ctx.quick and P == 5 and mode == 'same' and kind == 'interior':
+                    gs = [make_grid(rng, 4, gk)] * P          # 5-D on a 4-point grid
                 phi = make_phi(rng, [len(g) for g in gs])
                 fs = make_props(rng, P - 1, kind)
                 site = 'PhiManip.' + pf['name'] + ('' if mode == 'same' else PER_AXIS)
@@ -289,7 +344,7 @@ def records(ctx):
     for name, P in ctors:
         for mode in ('same', 'same_length', 'mixed'):
             for kind in prop_cases(P - 1, mode):
-                gk = rng.choice(['dyadic', 'uniform']) if kind == 'aligned' else None
+                gk = ('dyadic', 'uniform')[next(kind_no) % 2] if kind == 'aligned' else next_kind()
                 gs = grids_for(rng, P, mode, extra=1, kind=gk)
                 phi = make_phi(rng, [len(g) for g in gs[:P]])
                 fs = make_props(rng, P - 1, kind)
@@ -298,11 +353,11 @@ def records(ctx):
                                         'fs': rats(fs), 'kind': kind, 'grids': mode})
     # ---- splits
     for _ in range(6 * rep):
-        g = make_grid(rng, rng.randint(3, 20), rng.choice(GRID_KINDS))
+        g = make_grid(rng, rng.randint(3, 20), next_kind())
         add('split1d', 'PhiManip.phi_1D_to_2D', {'phi': enc_phi(make_phi(rng, [len(g)])), 'g': rats(g)})
     for k in (1, 2):
         for _ in range(5 * rep):
-            g = make_grid(rng, rng.randint(4, 8), rng.choice(GRID_KINDS))
+            g = make_grid(rng, rng.randint(4, 8), next_kind())
             add('split', 'PhiManip.phi_2D_to_3D_split_%d' % k, {'phi': enc_phi(make_phi(rng, [len(g)] * 2)), 'g': rats(g), 'k': k})
     # ---- remove / filter / reorder / trapz: the removed axes share one grid, the kept ones need not
     for _ in range(12 * rep):
@@ -327,14 +382,139 @@ def records(ctx):
     return recs
 
 
+def fixed_records(add, rng, ctors, pulses, quick):
+    """The boundary values and named options of the property's domain, drawn deterministically in
+    both tiers (small arrays; only the density values depend on the seed)."""
+    def grid(n, k):
+        return make_grid(rng, n, GRID_KINDS[k % len(GRID_KINDS)])
+
+    def pulse(pf, fs, kind, n=None, gs=None, phi=None, **extra):
+        P = pf['P']
+        n = n or ((3 if P >= 3 else 4) if quick else (4 if P >= 4 else 6))
+        gs = gs or [grid(n, pf['dest'] + P)] * P
+        phi = make_phi(rng, [len(g) for g in gs]) if phi is None else phi
+        inp = {'phi': enc_phi(phi), 'gs': [rats(g) for g in gs], 'dest': pf['dest'], 'src': pf['src'], 'fs': rats(fs),
+               'kind': kind, 'grids': 'same'}
+        inp.update(extra)
+        add('pulse', 'PhiManip.' + pf['name'], inp)
+
+    def admix(name, P, fs, kind, n=None, gs=None, phi=None, **extra):
+        n = n or ((3 if P >= 3 else 4) if quick else (4 if P >= 4 else 6))
+        gs = gs or [grid(n, P)] * (P + 1)
+        phi = make_phi(rng, [len(g) for g in gs[:P]]) if phi is None else phi
+        inp = {'phi': enc_phi(phi), 'gs': [rats(g) for g in gs[:P]], 'gnew': rats(gs[P]), 'fs': rats(fs), 'kind': kind, 'grids': 'same'}
+        inp.update(extra)
+        add('admix_new', 'PhiManip.' + name, inp)
+
+    def unit(m, k, v=1.0):
+        f = [0.0] * m
+        f[k] = v
+        return f
+    fns = [('pulse', pf, pf['P'] - 1) for pf in pulses] + [('admix', c, c[1] - 1) for c in ctors]
+
+    def call(kind_, obj, fs, kind, **kwargs):
+        if kind_ == 'pulse':
+            pulse(obj, fs, kind, **kwargs)
+        else:
+            admix(obj[0], obj[1], fs, kind, **kwargs)
+    for kind_, obj, m in fns:
+        for k in range(m):
+            # proportion 1 from every single source (as a float, and as the Python int 1) ...
+            call(kind_, obj, unit(m, k), 'vertex_%d' % k, ftype='int' if k % 2 else None)
+            # ... one source alone at an interior value (pins the argument -> source mapping) ...
+            call(kind_, obj, unit(m, k, 0.375), 'single_%d' % k, ftype='np' if k % 2 else None)
+            # ... and one source alone above 1
+            call(kind_, obj, unit(m, k, 1.25), 'above_%d' % k, n=2)
+        # proportion 0 as Python ints
+        call(kind_, obj, [0.0] * m, 'zero_int', ftype='int')
+        # the boundary as a user types it: (0.9, 0.1) in the first two (or only) arguments
+        call(kind_, obj, ([0.9, 0.1] + [0.0] * m)[:m] if m >= 2 else [0.9], 'face_0.9_0.1')
+        # smallest grids: two and three points
+        P = obj['P'] if kind_ == 'pulse' else obj[1]
+        for n in (2, 3):
+            fs = make_props(rng, m, 'interior')
+            g = np.array([0.0, 1.0]) if n == 2 else grid(3, P + m)
+            call(kind_, obj, fs, 'grid_%d_points' % n, gs=[g] * (P + (kind_ == 'admix')))
+        # memory layouts of the array arguments
+        for layout in ('F', 'sliced'):
+            call(kind_, obj, make_props(rng, m, 'interior'), 'layout_' + layout, layout=layout)
+        # empty and corner-only densities
+        n = 3
+        sh = [n] * P
+        call(kind_, obj, make_props(rng, m, 'interior'), 'zero_density', n=n, phi=np.zeros(sh))
+        for corner in (0, -1):
+            a = np.zeros(sh)
+            a.flat[corner] = 2.5
+            call(kind_, obj, make_props(rng, m, 'interior'), 'corner_density_%d' % corner, n=n, phi=a)
+    for name, P in ctors:                 # the deme_ids keyword does not change the density
+        admix(name, P, make_props(rng, P - 1, 'interior'), 'deme_ids', deme_ids=['d%d' % j for j in range(1, P + 2)])
+    # ---- splits: smallest grids, layouts, keyword, empty / end-point-only densities
+    for n in (2, 3, 4):
+        g = np.array([0.0, 1.0]) if n == 2 else grid(n, n)
+        add('split1d', 'PhiManip.phi_1D_to_2D', {'phi': enc_phi(make_phi(rng, [n])), 'g': rats(g)})
+        for k in (1, 2):
+            add('split', 'PhiManip.phi_2D_to_3D_split_%d' % k, {'phi': enc_phi(make_phi(rng, [n, n])), 'g': rats(g), 'k': k})
+    g = grid(6, 1)
+    ends = np.zeros(6)
+    ends[0], ends[-1] = 3.0, 4.0
+    for phi1 in (np.zeros(6), ends):
+        add('split1d', 'PhiManip.phi_1D_to_2D', {'phi': enc_phi(phi1), 'g': rats(g)})
+    for layout in ('F', 'sliced'):
+        add('split1d', 'PhiManip.phi_1D_to_2D', {'phi': enc_phi(make_phi(rng, [6])), 'g': rats(g), 'layout': layout})
+        for k in (1, 2):
+            add('split', 'PhiManip.phi_2D_to_3D_split_%d' % k, {'phi': enc_phi(make_phi(rng, [6, 6])), 'g': rats(g), 'k': k, 'layout': layout})
+    add('split1d', 'PhiManip.phi_1D_to_2D', {'phi': enc_phi(make_phi(rng, [6])), 'g': rats(g), 'deme_ids': ['a', 'b']})
+    for k in (1, 2):
+        add('split', 'PhiManip.phi_2D_to_3D_split_%d' % k, {'phi': enc_phi(make_phi(rng, [6, 6])), 'g': rats(g), 'k': k, 'deme_ids': ['a', 'b', 'c']})
+    # ---- remove_pop / trapz: every axis of every dimension count, unequal axis lengths
+    for P in range(1, 6):
+        for a in range(1, P + 1):
+            sh = [2 + ((j + a) % 3) for j in range(P)]
+            n = 2 + (a + P) % 4
+            sh[a - 1] = n
+            g = np.array([0.0, 1.0]) if n == 2 else grid(n, a + P)
+            phi = make_phi(rng, sh)
+            add('remove', 'PhiManip.remove_pop', {'phi': enc_phi(phi), 'g': rats(g), 'a': a})
+            add('remove', 'Numerics.trapz', {'phi': enc_phi(phi), 'g': rats(g), 'a': a, 'call': ('neg_axis', 'dx', None)[(a + P) % 3]})
+        add('remove', 'Numerics.trapz', {'phi': enc_phi(phi), 'g': rats(g), 'a': P, 'call': 'default_axis'})
+        add('remove', 'PhiManip.remove_pop', {'phi': enc_phi(phi), 'g': rats(g), 'a': P, 'layout': 'F' if P % 2 else 'sliced'})
+        add('remove', 'Numerics.trapz', {'phi': enc_phi(phi), 'g': rats(g), 'a': P, 'layout': 'sliced' if P % 2 else 'F'})
+    # ---- filter_pops: keep one / all but one / all / an unsorted list; list, tuple, array
+    for P in range(2, 6):
+        n = 3 + P % 2
+        g = grid(n, P)
+        cases = [([1], None), ([P], 'tuple'), (list(range(1, P)), 'array'), (list(range(1, P + 1)), None), ([P, 1], 'tuple')]
+        if P >= 3:
+            cases.append(([2, P][::-1], None))
+        for keep, st in cases:
+            sh = [(2 + j % 3) if (j + 1) in keep else n for j in range(P)]
+            inp = {'phi': enc_phi(make_phi(rng, sh)), 'g': rats(g), 'keep': keep}
+            if st:
+                inp['seqtype'] = st
+            add('filter', 'PhiManip.filter_pops', inp)
+        add('filter', 'PhiManip.filter_pops', {'phi': enc_phi(make_phi(rng, [n] * P)), 'g': rats(g), 'keep': [1], 'layout': 'F'})
+    # ---- reorder_pops: identity, reversal, both cyclic shifts (not their own inverse), unequal axis lengths
+    for P in range(2, 6):
+        sh = [2 + j for j in range(P)]
+        ident = list(range(1, P + 1))
+        perms = [(ident, None), (ident[::-1], 'tuple'), (ident[1:] + ident[:1], 'array'), (ident[-1:] + ident[:-1], None)]
+        for perm, st in perms:
+            inp = {'phi': enc_phi(make_phi(rng, sh)), 'perm': perm}
+            if st:
+                inp['seqtype'] = st
+            add('reorder', 'PhiManip.reorder_pops', inp)
+        add('reorder', 'PhiManip.reorder_pops', {'phi': enc_phi(make_phi(rng, sh)), 'perm': ident[1:] + ident[:1], 'layout': 'sliced'})
+
+
 # ---------------------------------------------------------------- evidence helpers
 def nontrivial(r):
     i = r['in']
     if r['op'] in ('pulse', 'admix_new'):
         if i['kind'] == 'zero' and r['op'] == 'admix_new':
             return (r['site'], 'zero')
-        return (r['site'], i['kind'], tuple(i['phi']['sh']), i['grids'])
-    return (r['site'], tuple(i['phi']['sh']), i.get('a'), tuple(i.get('keep', ())), tuple(i.get('perm', ())))
+        return (r['site'], i['kind'], tuple(i['phi']['sh']), i['grids'], i.get('layout'), i.get('ftype'))
+    return (r['site'], tuple(i['phi']['sh']), i.get('a'), tuple(i.get('keep', ())), tuple(i.get('perm', ())),
+            i.get('layout'), i.get('call'), i.get('seqtype'))
 
 
 def mutate(rec):
@@ -381,9 +561,10 @@ def run(ctx):
         recs = records(ctx)
     return common.pipeline(
         ctx, [('PhiOpsMC', 'PhiOpsMC_%s.cfg' % ctx.tier)], 'Trace_PhiOps', recs,
-        nontrivial_of=nontrivial, mutator=mutate, what_of=what_of, parallel=8 if ctx.quick else 12,
+        nontrivial_of=nontrivial, mutator=mutate, what_of=what_of, parallel=12,
         rule='pulse / admix_new records: distinct (function, proportion class [zero, vertex, face, subface, grid-aligned, interior, '
-             'round-off stress, above 1], array shape, grid mode [one grid for all axes | per-axis grids of equal | different lengths]); '
+             'round-off stress, above 1; fixed set: 1 / 0.375 / 1.25 from each single source, ints, (0.9, 0.1), 2- and 3-point grids, '
+             'Fortran / strided layouts, empty and corner-only densities], array shape, grid mode [one grid for all axes | per-axis grids of equal | different lengths]); '
              'other records: distinct (function, shape, axis / kept set / permutation)',
         assumptions=['BigInteger rational arithmetic of the Rat override (self-tested against the TLA+ definitions)',
                      'tau_lin = 1e-10 relative to the largest exact value on the same fibre (new / destination axis); per-entry relative 1e-10 '
